@@ -821,20 +821,30 @@ func (f *Frugal) UnderlyingType(t *Type) *Type {
 	if t == nil {
 		panic("Attempted to get underlying type of nil type")
 	}
+	if next := f.typedefTarget(t); next != nil {
+		// Recursively call underlying type to handle typedef nesting.
+		// validateTypedefs guarantees that this terminates.
+		return f.UnderlyingType(next)
+	}
+	return t
+}
+
+// typedefTarget returns the type the given type is an alias of, or nil if it
+// isn't a typedef. This is the single resolution step of UnderlyingType.
+func (f *Frugal) typedefTarget(t *Type) *Type {
 	typedefIndex := f.typedefIndex
 	include := t.IncludeName()
 	if include != "" {
 		parsed, ok := f.ParsedIncludes[include]
 		if !ok {
-			return t
+			return nil
 		}
 		typedefIndex = parsed.typedefIndex
 	}
 	if typedef, ok := typedefIndex[t.ParamName()]; ok {
-		// Recursively call underlying type to handle typedef nesting.
-		return f.UnderlyingType(typedef.Type)
+		return typedef.Type
 	}
-	return t
+	return nil
 }
 
 // ConstantFromField returns a new Constant from the given Field and value.
@@ -1175,6 +1185,35 @@ func (f *Frugal) validateTypedefs() error {
 		if !f.isValidType(typedef.Type) {
 			return fmt.Errorf("Invalid alias %s, type %s doesn't exist",
 				typedef.Name, typedef.Type.Name)
+		}
+	}
+
+	// Reject circular typedefs: UnderlyingType follows typedefs until it
+	// reaches a type which isn't one and would never return on a cycle.
+	// Every typedef resolution can reach from this file is checked: a walk
+	// which takes more hops than there are typedefs has entered a cycle.
+	includeNames := make([]string, 0, len(f.ParsedIncludes))
+	limit := len(f.Typedefs)
+	for name, include := range f.ParsedIncludes {
+		includeNames = append(includeNames, name)
+		limit += len(include.Typedefs)
+	}
+	sort.Strings(includeNames)
+	typedefs := append([]*TypeDef{}, f.Typedefs...)
+	for _, name := range includeNames {
+		typedefs = append(typedefs, f.ParsedIncludes[name].Typedefs...)
+	}
+	for _, typedef := range typedefs {
+		t := typedef.Type
+		for hops := 0; ; hops++ {
+			next := f.typedefTarget(t)
+			if next == nil {
+				break
+			}
+			if hops >= limit {
+				return fmt.Errorf("Circular typedef %s", typedef.Name)
+			}
+			t = next
 		}
 	}
 	return nil
